@@ -1,4 +1,39 @@
-import SfxModel.ArithSpec
+import SfxProofs.Round
+import SfxProps.C01
+/-
+  C06 — floor / ceil / round / round_ties_to_even / round_to_zero match exact rounding.
+  `Layout.exactR f mode a` is the mathematically defined integer (times `2^f`, unbounded) for the value `a / 2^f`.
+-/
 namespace Sfx.C06
-theorem placeholder : True := trivial
+open Sfx.C01
+
+def C06_statement : Prop :=
+  ∀ L : Layout, L.valid → ∀ a : Int, inRange L a →
+    (∀ m : Layout.RMode,
+      L.overflowingR m a = L.ovf (Layout.exactR L.f m a) ∧
+      L.checkedR m a = .ok (L.chk (Layout.exactR L.f m a)) false ∧
+      L.saturatingR m a = .ok (L.clamp (Layout.exactR L.f m a)) false ∧
+      L.wrappingR m a = .ok (L.wrap (Layout.exactR L.f m a)) false ∧
+      L.plainR m a = .ok (L.wrap (Layout.exactR L.f m a)) (!decide (inRange L (Layout.exactR L.f m a)))) ∧
+    L.roundToZero a = .ok (Layout.truncE L.f a) false ∧
+    (L.f < L.n → L.intPart a = Layout.floorE L.f a ∧ 0 ≤ L.fracPart a ∧ L.fracPart a < 2 ^ L.f ∧ L.intPart a + L.fracPart a = a) ∧
+    (L.f = L.n → L.intPart a = 0 ∧ L.fracPart a = a)
+
+theorem holds : C06_statement := by
+  intro L hv a ha
+  obtain ⟨h2, _, _, hf⟩ := valid_facts hv
+  refine ⟨fun m => ⟨overflowingR_spec L h2 hf m a ha, checkedR_spec L h2 hf m a ha, saturatingR_spec L h2 hf m a ha,
+    wrappingR_spec L h2 hf m a ha, plainR_spec L h2 hf m a ha⟩, roundToZero_spec L h2 hf a ha,
+    (int_frac_spec L h2 hf a ha).1, (int_frac_spec L h2 hf a ha).2⟩
+
+/-- the mask constants derived from the fractional-bit count -/
+theorem masks (L : Layout) (hv : L.valid) :
+    L.intMask = L.wrap (-(2 ^ L.f)) ∧ L.fracMask = L.wrap (2 ^ L.f - 1) ∧
+    L.intLsb = (if L.f < L.n then L.wrap (2 ^ L.f) else 0) ∧ L.fracMsb = (if 0 < L.f then L.wrap (2 ^ (L.f - 1)) else 0) := by
+  obtain ⟨h2, _, _, hf⟩ := valid_facts hv
+  exact ⟨intMask_eq L h2 hf, fracMask_eq L h2 hf, intLsb_eq L h2 hf, fracMsb_eq L h2 hf⟩
+
+/-- non-vacuity: the one-integer-bit and no-integer-bit signed layouts, a tie and the minimum -/
+example : (⟨true, 8, 7⟩ : Layout).valid ∧ inRange ⟨true, 8, 7⟩ (-64) ∧ (⟨true, 8, 8⟩ : Layout).valid ∧ inRange ⟨true, 8, 8⟩ (-128) := by decide
+
 end Sfx.C06
